@@ -44,6 +44,11 @@ type c17W struct {
 	// in-memory state (index field registry, timestamps, caches) is freshly
 	// loaded, or lazily about to be
 	Restarted bool `json:"restarted,omitempty"`
+	// WriteErrAt >= 1: the (WriteErrAt-1)-th top-level storage write issued
+	// after the sessions have started fails once with an I/O error (the store
+	// keeps working, nobody restarts): the call it belongs to may fail, and a
+	// failed call counts as unacknowledged
+	WriteErrAt int `json:"write_err_at,omitempty"`
 }
 
 func init() {
@@ -64,6 +69,10 @@ var c17Edges = map[string][3]string{"e1": {"a", "b", "k"}, "e2": {"b", "c", "l"}
 func genC17(r *Rng, tier string) *c17W {
 	w := &c17W{Run: GenRunCfg(r, []int{1, 1, 10}), Restarted: r.Chance(50)}
 	nc := 2 + r.Intn(3)
+	schemaTheme := r.Chance(15) // sessions that mostly upload and read schemas
+	if r.Chance(20) {
+		w.WriteErrAt = 1 + r.Intn(30)
+	}
 	for c := 0; c < nc; c++ {
 		n := 2 + r.Intn(5)
 		var s []cOp
@@ -72,7 +81,12 @@ func genC17(r *Rng, tier string) *c17W {
 			if r.Chance(20) {
 				g = "g2"
 			}
-			switch k := r.Intn(100); {
+			k := r.Intn(100)
+			if schemaTheme && r.Chance(60) {
+				k = 91 + r.Intn(5)
+				g = "g1"
+			}
+			switch {
 			case k < 22:
 				s = append(s, cOp{Op: "addV", G: g, ID: Pick(r, []string{"a", "b", "c"}), Label: Pick(r, gen.VLabels)})
 			case k < 38:
@@ -119,6 +133,11 @@ func genC17(r *Rng, tier string) *c17W {
 func shrinkC17(w *c17W) []interface{} {
 	var out []interface{}
 	cp := func() *c17W { n := &c17W{}; jsonClone(w, n); return n }
+	if w.WriteErrAt > 0 {
+		n := cp()
+		n.WriteErrAt = 0
+		out = append(out, n)
+	}
 	for c := len(w.Sessions) - 1; c >= 0 && len(w.Sessions) > 1; c-- {
 		n := cp()
 		n.Sessions = append(n.Sessions[:c], n.Sessions[c+1:]...)
@@ -138,6 +157,39 @@ type c17Edit struct {
 	op    cOp
 	value string // unique written value
 	acked bool
+}
+
+// c17Schema is one AddSchema call: the uploaded schema has two vertices whose
+// ids are unique to the call, so a stored or served schema is attributable.
+type c17Schema struct {
+	g, val string
+	acked  bool
+}
+
+func schemaOf(g, val string) *gripql.Graph {
+	return &gripql.Graph{Graph: g, Vertices: []*gripql.Vertex{
+		{Gid: val + ".x", Label: "A", Data: toPV(&model.Vertex{ID: "x", Label: "A", Data: map[string]interface{}{"w": val}}).Data},
+		{Gid: val + ".y", Label: "B", Data: toPV(&model.Vertex{ID: "y", Label: "B", Data: map[string]interface{}{"w": val}}).Data},
+	}}
+}
+
+// schemaWhole tells whether a list of schema vertex ids is exactly one upload.
+func schemaWhole(ids string) (string, bool) {
+	p := strings.Split(ids, ",")
+	if len(p) != 2 || !strings.HasSuffix(p[0], ".x") || !strings.HasSuffix(p[1], ".y") {
+		return "", false
+	}
+	v := strings.TrimSuffix(p[0], ".x")
+	return v, v == strings.TrimSuffix(p[1], ".y")
+}
+
+func schemaIDs(g *gripql.Graph) string {
+	var ids []string
+	for _, v := range g.Vertices {
+		ids = append(ids, v.Gid)
+	}
+	sort.Strings(ids)
+	return strings.Join(ids, ",")
 }
 
 func isEdit(op string) bool {
@@ -297,10 +349,14 @@ func execC17once(w *c17W, x *Exec) *Outcome {
 	u := universe{Graphs: []string{"g1", "g2"}, VIDs: []string{"a", "b", "c"}, EIDs: []string{"e1", "e2", "e3", "e4"}, VLabels: gen.VLabels, ELabels: gen.ELabels, HideSchemaGraphs: true}
 	var setupErr error
 	returned := 0
+	schemas := make([][]c17Schema, len(w.Sessions))
+	servedSchema, storedSchema := "", "" // ids of the schema of g1 after quiescence ("" = none)
+	badSchemaRead := ""
+	var disk *simkv.Disk
 	res := x.Bubble(cfg, func(s *simrt.Sim) func() bool {
 		var srv *simServer
 		s.Passive(func() {
-			disk := simkv.NewDisk()
+			disk = simkv.NewDisk()
 			if w.Restarted {
 				kvgraph.NewKVGraph(disk.Open()).AddGraph("g1") // an earlier incarnation
 			}
@@ -311,6 +367,9 @@ func execC17once(w *c17W, x *Exec) *Outcome {
 				}
 				srv.Srv.VerifRefreshGraphMap()
 			}
+			if setupErr == nil && w.WriteErrAt > 0 {
+				disk.Arm(-1, w.WriteErrAt-1, false)
+			}
 		})
 		if setupErr != nil {
 			return nil
@@ -320,6 +379,9 @@ func execC17once(w *c17W, x *Exec) *Outcome {
 			for i, op := range sess {
 				if isEdit(op.Op) {
 					written[fmt.Sprintf("c%d-%d", c, i)] = true
+				}
+				if op.Op == "addSchema" {
+					written[fmt.Sprintf("c%d-%d#schema", c, i)] = true
 				}
 			}
 		}
@@ -364,7 +426,7 @@ func execC17once(w *c17W, x *Exec) *Outcome {
 							{Graph: op.G, Vertex: toPV(&model.Vertex{ID: bulkSecond(op.ID), Label: labelOf(op), Data: map[string]interface{}{"w": val}})},
 						}}
 						err = srv.Srv.BulkAdd(st)
-						if err == nil && (st.Result == nil || st.Result.InsertCount != 2) {
+						if err == nil && (st.Result == nil || st.Result.InsertCount != 2 || st.Result.ErrorCount != 0) {
 							err = fmt.Errorf("not inserted")
 						}
 					case "query":
@@ -415,9 +477,16 @@ func execC17once(w *c17W, x *Exec) *Outcome {
 					case "graphs":
 						srv.Srv.ListGraphs(ctx, &gripql.Empty{})
 					case "addSchema":
-						srv.Srv.AddSchema(ctx, &gripql.Graph{Graph: op.G, Vertices: []*gripql.Vertex{{Gid: "A", Label: "A"}}})
+						_, e := srv.Srv.AddSchema(ctx, schemaOf(op.G, val))
+						schemas[c] = append(schemas[c], c17Schema{g: op.G, val: val, acked: e == nil})
 					case "getSchema":
-						srv.Srv.GetSchema(ctx, &gripql.GraphID{Graph: op.G})
+						// a served schema is one upload, whole (never a mixture of two)
+						if sc, e := srv.Srv.GetSchema(ctx, &gripql.GraphID{Graph: op.G}); e == nil && sc != nil && badSchemaRead == "" {
+							ids := schemaIDs(sc)
+							if val, ok := schemaWhole(ids); !ok || !written[val+"#schema"] {
+								badSchemaRead = fmt.Sprintf("GetSchema(%s) returned vertices [%s]", op.G, ids)
+							}
+						}
 					case "submit":
 						if job, e := srv.submitUnary(&gripql.GraphQuery{Graph: op.G, Query: gen.StmtsOf(gen.V())}); e == nil && job != nil {
 							for k := 0; k < 100; k++ {
@@ -451,7 +520,22 @@ func execC17once(w *c17W, x *Exec) *Outcome {
 				returned++
 				if returned == len(w.Sessions) {
 					s.Passive(func() {
+						if n := disk.Faults.Fired["write_error"]; n > 0 {
+							o.Count("fault:write_error", n)
+						}
+						disk.Disarm()
 						got = observeReal(srv.DB, u, x.WorkDir)
+						if sc, e := srv.Srv.GetSchema(ctx, &gripql.GraphID{Graph: "g1"}); e == nil && sc != nil {
+							servedSchema = schemaIDs(sc)
+						}
+						if sg, e := srv.DB.Graph("g1__schema__"); e == nil {
+							var ids []string
+							for v := range sg.GetVertexList(ctx, false) {
+								ids = append(ids, v.ID)
+							}
+							sort.Strings(ids)
+							storedSchema = strings.Join(ids, ",")
+						}
 						for _, ce := range cache {
 							t, e := srv.Srv.GetTimestamp(ctx, &gripql.GraphID{Graph: ce.g})
 							if e != nil || t == nil || t.Timestamp != ce.ts {
@@ -496,8 +580,12 @@ func execC17once(w *c17W, x *Exec) *Outcome {
 		o.Violation = &Violation{Signature: "C17/read-of-a-value-nobody-wrote", Detail: badReads[0]}
 	case staleCache != "":
 		o.Violation = &Violation{Signature: "C17/unchanged-timestamp-but-changed-listing", Detail: staleCache}
+	case badSchemaRead != "":
+		o.Violation = &Violation{Signature: "C17/schema/reader-saw-a-schema-nobody-uploaded", Detail: badSchemaRead}
 	case got == nil:
 		o.Inconclusive = "infra:no final observation"
+	case c17SchemaVerdict(schemas, servedSchema, storedSchema, o) != nil:
+		o.Violation = c17SchemaVerdict(schemas, servedSchema, storedSchema, nil)
 	default:
 		got.dropKind("vertex-labels")
 		got.dropKind("edge-labels")
@@ -518,6 +606,56 @@ func execC17once(w *c17W, x *Exec) *Outcome {
 		}
 	}
 	return o
+}
+
+// c17SchemaVerdict judges the schema of g1 (a graph no session deletes) once
+// every call has returned. The schema served by the running server must be the
+// upload of an acknowledged AddSchema call that no acknowledged AddSchema of
+// the same client follows (a refused upload is never served); with no
+// acknowledged upload there is no schema. The stored schema graph must be that
+// of one such call, whole - judged only when every upload was acknowledged (a
+// refused upload may have been stored in part) - and the same one as is served.
+func c17SchemaVerdict(schemas [][]c17Schema, served, stored string, o *Outcome) *Violation {
+	cand := map[string]bool{}
+	unacked, calls := 0, 0
+	var desc []string
+	for c, ss := range schemas {
+		last := ""
+		for _, sc := range ss {
+			if sc.g != "g1" {
+				continue
+			}
+			calls++
+			desc = append(desc, fmt.Sprintf("client%d:addSchema(%s)=%v", c, sc.val, sc.acked))
+			if sc.acked {
+				last = sc.val
+			} else {
+				unacked++
+			}
+		}
+		if last != "" {
+			cand[last+".x,"+last+".y"] = true
+		}
+	}
+	if calls == 0 {
+		return nil
+	}
+	if o != nil {
+		o.Count("schema_uploads_judged", 1)
+		if unacked > 0 {
+			o.Count("schema_uploads_refused", unacked)
+		}
+	}
+	detail := fmt.Sprintf("uploads: %s\nserved by GetSchema(g1): [%s]\nstored in g1__schema__: [%s]", strings.Join(desc, " "), served, stored)
+	switch {
+	case served != "" && !cand[served]:
+		return &Violation{Class: "C17/schema", Signature: "C17/schema/served-schema-is-not-the-last-acknowledged-upload-of-any-client", Detail: detail}
+	case served == "" && len(cand) > 0:
+		return &Violation{Class: "C17/schema", Signature: "C17/schema/acknowledged-upload-not-served", Detail: detail}
+	case unacked == 0 && stored != served:
+		return &Violation{Class: "C17/schema", Signature: "C17/schema/stored-schema-differs-from-the-served-one", Detail: detail}
+	}
+	return nil
 }
 
 func editsString(edits [][]c17Edit) string {
